@@ -838,6 +838,22 @@ func (n *PipeNode) Walk(v Visitor) {
 	v.Visit(n.Right)
 }
 
+// SubExpressionNode is left.right: right is evaluated on the result of left,
+// unless that result is null, which ends the sub-expression with null.
+type SubExpressionNode struct {
+	Left  Node
+	Right Node
+}
+
+func (n *SubExpressionNode) String() string {
+	return "SubExpression"
+}
+
+func (n *SubExpressionNode) Walk(v Visitor) {
+	v.Visit(n.Left)
+	v.Visit(n.Right)
+}
+
 type ProjectArrayNode struct {
 	Left  Node
 	Right Node
